@@ -1196,6 +1196,7 @@ fn main() {
     let mut outcomes: BTreeMap<String, BTreeSet<u64>> = BTreeMap::new();
     let mut load_sequences: BTreeMap<String, BTreeSet<Vec<String>>> = BTreeMap::new();
     let mut times: Vec<f64> = vec![];
+    let mut loader_times: Vec<f64> = vec![];
     let mut samples = Samples::new(48);
     let mut rechecks = 0u64;
     let mut swaps_not_checkable = 0u64;
@@ -1240,6 +1241,7 @@ fn main() {
         match result {
             RunResult::Ok(o) => {
                 times.push(o.ms);
+                loader_times.push(o.load_ms);
                 compared += 1;
                 evaluations += 1;
                 let input_mark = case
@@ -1415,6 +1417,7 @@ fn main() {
     let total_skipped: u64 = skipped.values().sum();
     let exhaustive = total_skipped == 0 && base.len() == EXAMPLES.len();
     times.sort_by(|a, b| a.partial_cmp(b).unwrap());
+    loader_times.sort_by(|a, b| a.partial_cmp(b).unwrap());
     let mut per_description = serde_json::Map::new();
     for (d, p) in &plans {
         let fam = |f: &str| json!({
@@ -1464,7 +1467,7 @@ fn main() {
         "traces_validated_against_impl": compared,
         "evaluations": evaluations,
         "distinct_nontrivial": distinct_nontrivial,
-        "rule": "a state is a distinct (description, order fingerprint) pair, the fingerprint being an FNV hash computed inside crux_cli over the exact sequence of (relation, crate, id) facts and edges presented to the two datalog programs in crate processing order; it is non-trivial if it differs from the fingerprint of the unperturbed run of that description",
+        "rule": "a state is a distinct (description, order fingerprint) pair, the fingerprint being an FNV hash computed inside crux_cli over the exact sequence of (relation, crate, id) facts and edges presented to the two datalog programs in crate processing order; members of the declared-swap family additionally carry a hash of the swap, since they change the description and not the order; a state is non-trivial if it differs from that of the unperturbed run of that description",
         "exhaustive": exhaustive,
         "exhaustive_detail": if exhaustive {
             format!("all families below were enumerated completely for all {} bundled descriptions at tier {}; renumbering family at this tier = {}", base.len(), tier.name(), renumber_bound)
@@ -1502,14 +1505,18 @@ fn main() {
         "reference_derivations_cross_checked": reference_checked,
         "reference_not_derivable": reference_not_derivable,
         "violating_cases_re_executed": rechecks,
-        "run_ms": if times.is_empty() { json!(null) } else { json!({"min": times[0], "median": times[times.len() / 2], "max": times[times.len() - 1]}) },
+        "run_ms": if times.is_empty() { json!(null) } else { json!({"min": times[0], "median": times[times.len() / 2], "max": times[times.len() - 1], "of_which_loader_median": loader_times[loader_times.len() / 2], "note": "per codegen run inside the worker pool, including cloning / renumbering the descriptions in the loader"}) },
         "samples": samples.into_value(),
     });
     let code = reporter.finish(
         "model_checking",
         coverage,
         &[
-            "the three perturbation families (plus the edge-order family) are finite and enumerated completely, but they are NOT all iteration orders, all id bijections or all load orders: a dependence that needs three or more items to move at once, or a specific non-listed id assignment, is outside the enumerated space",
+            "the three perturbation families of the design (fact order, renumbering, load order) plus the edge-order and declared-swap families are finite and enumerated completely, but they are NOT all iteration orders, all id bijections or all load orders: a dependence that needs three or more items to move at once, or a specific non-listed id assignment, is outside the enumerated space",
+            tier.pick(
+                "quick tier: the per-item members (item first/last, edges of a container first/last, transpositions, declared swaps) for items of a dependent crate are run under one designated description only, and transpositions only between neighbouring relevant items of one kind; the global members (descending order, reversal, offset, all load permutations) run for every description",
+                "thorough tier: per-item members for every loaded crate under every description; all transpositions of two relevant ids of one crate; load permutations with ascending and descending fact order",
+            ),
             "order is owned at the three fact vectors, the formatter's edge vector and the crate work list; iteration inside the datalog engine (ascent, FxHash) is deterministic given those and is not permuted separately",
             "only the 7 bundled example descriptions and the 5 bundled crux_* descriptions are inputs; they are snapshots (rustdoc format 42) and cannot be regenerated here",
             "protocol-type agreement compares crux_cli's output on the bundled snapshots with serde-reflection traced from the current sources; a difference that serde's own rules reproduce on the snapshot is attributed to snapshot age and reported, not flagged",
